@@ -486,7 +486,7 @@ def doVerifyVPReturnsSrc : List (String × String) :=
 
 def jsonldProofReturnsSrc : List (String × String) :=
   [ ("-marshal", "signedDocument,err := proof.NewSignedDocument(documentToVerify); err != nil => newVerificationError(\"invalid LD-JSON document: %w\",err)"),
-    ("ld:no-case-variant-member", "member := caseVariantMember(signedDocument,documentToVerify); member != \"\" => newVerificationError(\"invalid LD-JSON document: member '%s' only differs by case from a known member\",member)"),
+    ("ld:no-case-variant-member", "member := caseVariantMember(signedDocument,documentToVerify); member != \"\" => newVerificationError(\"invalid LD-JSON document: member '%s' only differs by case from another member\",member)"),
     ("ld:proof-decodes", "err = signedDocument.UnmarshalProofValue(&ldProof); err != nil => newVerificationError(\"unsupported proof type: %w\",err)"),
     ("ld:proof-present", "verificationMethod == \"\" => newVerificationError(\"missing proof\")"),
     ("ld:vm-of-issuer", "verificationMethodIssuer == \"\" || verificationMethodIssuer != issuer => errVerificationMethodNotOfIssuer"),
